@@ -63,7 +63,7 @@ def tree_of(it, obj, default, depth=0):
         b = obj.base
         if isinstance(b, (str, SStr, int, SInt, float, list, dict, bool, SBool)) and not hasattr(b, "isoformat"):
             return tree_of(it, b, default, depth)  # json serialises subclasses of str/int/float/list/dict as their base
-    if obj is None or isinstance(obj, (bool, SBool, int, SInt, float, str, SStr)) or type(obj).__name__ == "ISOText":
+    if obj is None or isinstance(obj, (bool, SBool, int, SInt, float, str, SStr)) or type(obj).__name__ in ("ISOText", "IPText"):
         return ("leaf", obj)
     if isinstance(obj, (list, tuple)) and not hasattr(obj, "_fields"):
         return ("arr", [tree_of(it, x, default, depth + 1) for x in obj])
